@@ -94,11 +94,176 @@ theorem C11_raw_tests_case_insensitive (cc : CharClasses) (L : CaseLaws cc) (t t
   · rw [← all_ws_lowerStr cc L t, ← all_ws_lowerStr cc L t', h]
   · rw [← all_nonalpha_lowerStr cc L t, ← all_nonalpha_lowerStr cc L t', h]
 
+/-! ### text level: a per-character recasing commutes with the tokenizer -/
+
+/-- a per-character recasing `f`: it keeps the classes, never creates or destroys the two ASCII
+punctuation marks the tokenizer looks at, and does not change the lowercase form -/
+structure Recasing (cc : CharClasses) (f : Char → Char) : Prop where
+  alnum : ∀ c, cc.isAlphanumeric (f c) = cc.isAlphanumeric c
+  alpha : ∀ c, cc.isAlphabetic (f c) = cc.isAlphabetic c
+  ws : ∀ c, cc.isWhitespace (f c) = cc.isWhitespace c
+  hyphen : ∀ c, (f c == '-') = (c == '-')
+  apos : ∀ c, (f c == '\'') = (c == '\'')
+  dot : ∀ c, (f c == '.') = (c == '.')
+  lower : ∀ c, cc.lower (f c) = cc.lower c
+
+theorem isWordChar_recase (cc : CharClasses) (f : Char → Char) (hf : Recasing cc f) (c : Char) :
+    isWordChar cc (f c) = isWordChar cc c := by
+  unfold isWordChar; rw [hf.alnum, hf.hyphen, hf.apos]
+
+theorem tokenizeAux_map (cc : CharClasses) (f : Char → Char) (hf : Recasing cc f) (b : Bool) (cur s : Word) :
+    tokenizeAux cc (some b) (cur.map f) (s.map f) = (tokenizeAux cc (some b) cur s).map (·.map f) := by
+  induction s generalizing b cur with
+  | nil =>
+    unfold tokenizeAux
+    by_cases h : cur.isEmpty = true
+    · have : cur = [] := by simpa using h
+      simp [this]
+    · have h2 : (cur.map f).isEmpty = false := by
+        cases cur with
+        | nil => simp at h
+        | cons x xs => rfl
+      have h3 : cur.isEmpty = false := by simpa using h
+      simp [h2, h3]
+  | cons c cs ih =>
+    cases b with
+    | true =>
+      simp only [List.map_cons]
+      unfold tokenizeAux
+      rw [isWordChar_recase cc f hf]
+      by_cases h : isWordChar cc c = true
+      · rw [if_pos h, if_pos h]
+        have := ih true (c :: cur)
+        simpa using this
+      · rw [if_neg h, if_neg h]
+        have := ih false [c]
+        simp only [List.map_cons, List.map_nil] at this
+        simp [this]
+    | false =>
+      simp only [List.map_cons]
+      unfold tokenizeAux
+      rw [hf.alnum]
+      by_cases h : cc.isAlphanumeric c = true
+      · rw [if_pos h, if_pos h]
+        have := ih true [c]
+        simp only [List.map_cons, List.map_nil] at this
+        simp [this]
+      · rw [if_neg h, if_neg h]
+        have := ih false (c :: cur)
+        simpa using this
+
+theorem tokenizeWords_map (cc : CharClasses) (f : Char → Char) (hf : Recasing cc f) (s : Word) :
+    tokenizeWords cc (s.map f) = (tokenizeWords cc s).map (·.map f) := by
+  unfold tokenizeWords
+  cases s with
+  | nil => simp [tokenizeAux]
+  | cons c cs =>
+    simp only [List.map_cons]
+    unfold tokenizeAux
+    rw [hf.alnum]
+    have := tokenizeAux_map cc f hf (cc.isAlphanumeric c) [c] cs
+    simpa using this
+
+theorem lowerStr_map (cc : CharClasses) (f : Char → Char) (hf : Recasing cc f) (t : Word) :
+    cc.lowerStr (t.map f) = cc.lowerStr t := by
+  unfold CharClasses.lowerStr
+  induction t with
+  | nil => rfl
+  | cons c cs ih => simp only [List.map_cons, List.flatMap_cons, hf.lower, ih]
+
+theorem all_map_eq {p : Char → Bool} (f : Char → Char) (h : ∀ c, p (f c) = p c) (t : Word) :
+    (t.map f).all p = t.all p := by
+  induction t with
+  | nil => rfl
+  | cons c cs ih => simp only [List.map_cons, List.all_cons, h, ih]
+
+theorem trim_map (cc : CharClasses) (f : Char → Char) (hf : Recasing cc f) (t : Word) :
+    cc.trim (t.map f) = (cc.trim t).map f := by
+  have dw : ∀ l : Word, (l.map f).dropWhile cc.isWhitespace = (l.dropWhile cc.isWhitespace).map f := by
+    intro l
+    induction l with
+    | nil => rfl
+    | cons c cs ih =>
+      simp only [List.map_cons, List.dropWhile_cons, hf.ws]
+      split
+      · exact ih
+      · rfl
+  unfold CharClasses.trim
+  rw [dw, ← List.map_reverse, dw, List.map_reverse]
+
+theorem singleton_beq (f : Char → Char) (x : Char) (h : ∀ c, (f c == x) = (c == x)) (t : Word) :
+    (t.map f == [x]) = (t == [x]) := by
+  cases t with
+  | nil => rfl
+  | cons c cs =>
+    cases cs with
+    | nil =>
+      show ([f c] == [x]) = ([c] == [x])
+      have e1 : ([f c] == [x]) = (f c == x) := by simp
+      have e2 : ([c] == [x]) = (c == x) := by simp
+      rw [e1, e2, h]
+    | cons d ds =>
+      have e1 : ((c :: d :: ds).map f == [x]) = false := by simp
+      have e2 : ((c :: d :: ds) == [x]) = false := by simp
+      rw [e1, e2]
+
+theorem eq_dot_map (f : Char → Char) (hdot : ∀ c, (f c == '.') = (c == '.')) (t : Word) :
+    (t.map f != ['.']) = (t != ['.']) := by
+  show (!(t.map f == ['.'])) = (!(t == ['.']))
+  rw [singleton_beq f '.' hdot]
+
+/-- recased texts tokenize to recased tokens carrying the same lowercase copies: every token pair
+satisfies `Recase` -/
+theorem tokenize_recase (cfg : ScanCfg) (f : Char → Char) (hf : Recasing cfg.cc f) (s : Word) :
+    ListRel (Recase cfg) (tokenize cfg.cc (s.map f)) (tokenize cfg.cc s) := by
+  unfold tokenize
+  rw [tokenizeWords_map cfg.cc f hf]
+  generalize tokenizeWords cfg.cc s = ws
+  induction ws with
+  | nil => trivial
+  | cons w ws ih =>
+    refine ⟨?_, ih⟩
+    unfold basicToken Recase
+    refine ⟨lowerStr_map cfg.cc f hf w, rfl, ?_, ?_⟩
+    · unfold Scanner.isSkipped
+      dsimp only
+      rw [all_map_eq f hf.ws]
+      congr 1
+      exact singleton_beq f '-' hf.hyphen w
+    · dsimp only
+      rw [all_map_eq f (fun c => by rw [hf.alpha]), trim_map cfg.cc f hf]
+      congr 1
+      exact eq_dot_map f hf.dot _
+
+/-- **C11 (text, token level of the text pipeline)**: recasing a text character by character
+(preserving classes and lowercase forms) changes neither which numbers the scanner recognises on the
+text's own tokens nor their spans, digit text, value or flag, at every threshold. -/
+theorem C11_text_scan (cfg : ScanCfg) (hsep : cfg.sep = noSep) (f : Char → Char) (hf : Recasing cfg.cc f) (s : Word) :
+    findNumbers cfg (tokenize cfg.cc (s.map f)) = findNumbers cfg (tokenize cfg.cc s) :=
+  C11_scan cfg (noSep_respects cfg hsep) _ _ (tokenize_recase cfg f hf s)
+
 /-! non-vacuity: `Recase` relates a real recasing, under concrete character classes -/
 def exLang : Lang := ⟨"x", fun _ b => (some .nan, b), fun _ b => (some .nan, b), fun _ => .none, fun _ => false, '.', fun _ => false⟩
 def exCC : CharClasses := ⟨fun c => c == ' ', Char.isAlpha, Char.isAlphanum, fun c => [c.toLower]⟩
 def exCfg : ScanCfg := ⟨exLang, exCC, noSep, fun _ => false⟩
 example : Recase exCfg { text := w!"FIVE", lower := w!"five" } { text := w!"five", lower := w!"five" } := by
   refine ⟨rfl, rfl, ?_, ?_⟩ <;> decide
+
+/-- a concrete, non-trivial recasing: swapping `a` and `A` under the example classes -/
+def swapA (c : Char) : Char := if c == 'a' then 'A' else if c == 'A' then 'a' else c
+
+example : Recasing exCC swapA := by
+  have key : ∀ c : Char, swapA c = c ∨ (c = 'a' ∧ swapA c = 'A') ∨ (c = 'A' ∧ swapA c = 'a') := by
+    intro c
+    unfold swapA
+    by_cases h1 : c = 'a'
+    · right; left; subst h1; exact ⟨rfl, rfl⟩
+    · by_cases h2 : c = 'A'
+      · right; right; subst h2; exact ⟨rfl, rfl⟩
+      · left; simp [h1, h2]
+  refine ⟨?_, ?_, ?_, ?_, ?_, ?_, ?_⟩ <;> intro c <;> rcases key c with h | ⟨h1, h2⟩ | ⟨h1, h2⟩ <;>
+    first
+    | (rw [h])
+    | (subst h1; rw [h2]; decide)
 
 end T2N.C11
